@@ -67,7 +67,9 @@ def run(ctx):
             if not ok:
                 continue
             wh = evs[1]["whence"]
-            ok = evs[1]["offset"] == off and wh == ("ite", N.mk_cmp("<", off, N.const(0)), N.const(2), N.const(0))
+            neg = N.mk_cmp("<", off, N.const(0))
+            d = decided(p, neg)
+            ok = evs[1]["offset"] == off and (wh == ("ite", neg, N.const(2), N.const(0)) or (d is True and wh == N.const(2)) or (d is False and wh == N.const(0)))
             ctx.ob("C09.R2", fi, ok, "the target seek uses whence 2 exactly when the offset is negative, else 0", key="whence")
             ctx.ob("C09.R2", fi, evs[2]["m"] == kind and evs[2]["target"] == N.selfattr("subcon") and p.retval == evs[2]["res"], "the inner construct is processed at the target and its result returned", key="inner")
             ctx.ob("C09.R2", fi, t.final == P0(s), "Pointer.%s ends at its entry position (got %s)" % (meth, N.show(t.final)), key="restore")
